@@ -12,7 +12,11 @@ use litep2p::{
     codec::ProtocolCodec,
     config::ConfigBuilder,
     crypto::ed25519::Keypair,
-    protocol::{libp2p::ping, TransportEvent, TransportService, UserProtocol},
+    protocol::{
+        libp2p::ping,
+        request_response::{ConfigBuilder as RrConfigBuilder, DialOptions, RequestResponseEvent},
+        TransportEvent, TransportService, UserProtocol,
+    },
     substream::Substream,
     transport::{tcp::config::Config as TcpConfig, websocket::config::Config as WsConfig},
     types::protocol::ProtocolName,
@@ -34,6 +38,12 @@ enum PCmd {
     Open(PeerId, oneshot::Sender<u64>),
     Drop(oneshot::Sender<u64>),
     Shut(oneshot::Sender<u64>),
+}
+
+/// Commands to the task that drives a node's request-response handle.
+enum RCmd {
+    Request(PeerId, oneshot::Sender<u64>),
+    Answer(oneshot::Sender<u64>),
 }
 
 struct Proto {
@@ -97,10 +107,20 @@ struct Node {
     cmd: mpsc::UnboundedSender<PCmd>,
     seen: Arc<AtomicU64>,
     dial: mpsc::UnboundedSender<Multiaddr>,
+    rr: mpsc::UnboundedSender<RCmd>,
+    /// requests received by this node's request-response protocol so far
+    rr_seen: Arc<AtomicU64>,
 }
 
-fn start_node(rt: &tokio::runtime::Runtime, t_ms: u64, with_ping: bool, transport: u64) -> Node {
+/// mode 0: no request-response traffic is generated (the protocol is installed all the same);
+/// 1: both nodes know /c09/rr/2 with fallback /c09/rr/1; 2: node 0 only knows the legacy name
+/// /c09/rr/1 (node 1 accepts its requests over its FALLBACK name); 3: node 0 only knows the legacy
+/// name and node 1 is the requester (its outbound substream is negotiated over its fallback name).
+fn start_node(rt: &tokio::runtime::Runtime, t_ms: u64, with_ping: bool, transport: u64, mode: u64, index: u64) -> Node {
     let (tx, rx) = std::sync::mpsc::channel();
+    let (rr_tx, mut rr_rx) = mpsc::unbounded_channel::<RCmd>();
+    let rr_seen = Arc::new(AtomicU64::new(0));
+    let rr_seen2 = rr_seen.clone();
     let (cmd_tx, cmd_rx) = mpsc::unbounded_channel();
     let (dial_tx, mut dial_rx) = mpsc::unbounded_channel::<Multiaddr>();
     let seen = Arc::new(AtomicU64::new(0));
@@ -132,6 +152,45 @@ fn start_node(rt: &tokio::runtime::Runtime, t_ms: u64, with_ping: bool, transpor
             ping_events = Some(events);
         }
         builder = builder.with_user_protocol(Box::new(Proto { cmd: cmd_rx, seen: seen2 }));
+        let legacy_only = mode >= 2 && index == 0;
+        let rr_builder = if legacy_only {
+            RrConfigBuilder::new(ProtocolName::from("/c09/rr/1"))
+        } else {
+            RrConfigBuilder::new(ProtocolName::from("/c09/rr/2")).with_fallback_names(vec![ProtocolName::from("/c09/rr/1")])
+        };
+        let (rr_cfg, mut rr_handle) = rr_builder.with_max_size(1024).with_timeout(Duration::from_secs(60)).build();
+        builder = builder.with_request_response_protocol(rr_cfg);
+        tokio::spawn(async move {
+            let mut pending = std::collections::VecDeque::new();
+            loop {
+                tokio::select! {
+                    ev = rr_handle.next() => match ev {
+                        None => return,
+                        Some(RequestResponseEvent::RequestReceived { request_id, .. }) => {
+                            pending.push_back(request_id);
+                            rr_seen2.fetch_add(1, Ordering::SeqCst);
+                        }
+                        Some(_) => {}
+                    },
+                    c = rr_rx.recv() => match c {
+                        None => return,
+                        Some(RCmd::Request(peer, tx)) => {
+                            let r = rr_handle.send_request(peer, vec![1, 2, 3], DialOptions::Reject).await;
+                            let _ = tx.send(r.is_err() as u64);
+                        }
+                        Some(RCmd::Answer(tx)) => {
+                            let _ = tx.send(match pending.pop_front() {
+                                Some(id) => {
+                                    rr_handle.send_response(id, vec![9]);
+                                    0
+                                }
+                                None => 1,
+                            });
+                        }
+                    },
+                }
+            }
+        });
         let mut litep2p = Litep2p::new(builder.build()).unwrap();
         let peer = *litep2p.local_peer_id();
         let addr = litep2p.listen_addresses().next().unwrap().clone();
@@ -155,7 +214,7 @@ fn start_node(rt: &tokio::runtime::Runtime, t_ms: u64, with_ping: bool, transpor
         }
     });
     let (peer, addr) = rx.recv_timeout(Duration::from_secs(20)).expect("node start");
-    Node { peer, addr, established, closed, cmd: cmd_tx, seen, dial: dial_tx }
+    Node { peer, addr, established, closed, cmd: cmd_tx, seen, dial: dial_tx, rr: rr_tx, rr_seen }
 }
 
 pub fn parse(c: &[u64]) -> Option<(u64, u64, u64, Vec<[u64; 2]>)> {
@@ -163,7 +222,7 @@ pub fn parse(c: &[u64]) -> Option<(u64, u64, u64, Vec<[u64; 2]>)> {
         return None;
     }
     let (t, ping, tr, n) = (c[1], c[2], c[3], c[4] as usize);
-    if t % 300 != 100 || t <= 300 || t >= 2000 || ping >= 2 || tr >= 3 || n >= 40 || c.len() != 5 + 2 * n {
+    if t % 300 != 100 || t <= 300 || t >= 2000 || ping >= 2 || tr >= 12 || n >= 40 || c.len() != 5 + 2 * n {
         return None;
     }
     let mut ops = Vec::new();
@@ -182,10 +241,11 @@ fn ask(rt: &tokio::runtime::Runtime, rx: oneshot::Receiver<u64>) -> u64 {
 }
 
 /// One run; returns (trace, timing ok).
-fn run_once(t_ms: u64, with_ping: bool, transport: u64, ops: &[[u64; 2]]) -> (Vec<u64>, bool) {
+fn run_once(t_ms: u64, with_ping: bool, tr: u64, ops: &[[u64; 2]]) -> (Vec<u64>, bool) {
     let rt = tokio::runtime::Builder::new_multi_thread().worker_threads(2).enable_all().build().unwrap();
-    let a = start_node(&rt, t_ms, with_ping, transport);
-    let b = start_node(&rt, t_ms, with_ping, transport);
+    let (transport, mode) = (tr % 3, tr / 3);
+    let a = start_node(&rt, t_ms, with_ping, transport, mode, 0);
+    let b = start_node(&rt, t_ms, with_ping, transport, mode, 1);
     let nodes = [&a, &b];
     // listen addresses already end in /p2p/<peer>
     let addr = if b.addr.iter().any(|p| matches!(p, multiaddr::Protocol::P2p(_))) {
@@ -214,10 +274,45 @@ fn run_once(t_ms: u64, with_ping: bool, transport: u64, ops: &[[u64; 2]]) -> (Ve
         if t_op.elapsed() > Duration::from_millis(JITTER_MS) {
             ok_time = false;
         }
-        let me = nodes[o[1] as usize];
-        let other = nodes[1 - o[1] as usize];
+        // request-response modes: op 1 = the requester sends a request, op 2 = the responder answers
+        let req = if mode == 3 { 1usize } else { 0 };
+        let who = if mode == 0 {
+            o[1] as usize
+        } else if o[0] == 1 {
+            req
+        } else if o[0] == 2 {
+            1 - req
+        } else {
+            o[1] as usize
+        };
+        let me = nodes[who];
+        let other = nodes[1 - who];
         let was_closed = a.closed.load(Ordering::SeqCst) || b.closed.load(Ordering::SeqCst);
         let rc = match o[0] {
+            1 if mode > 0 => {
+                let before = other.rr_seen.load(Ordering::SeqCst);
+                let (tx, rx) = oneshot::channel();
+                let _ = me.rr.send(RCmd::Request(other.peer, tx));
+                let rc = ask(&rt, rx);
+                if rc == 0 && !was_closed {
+                    // the responder must have the request soon, otherwise the timing is off
+                    let t1 = Instant::now();
+                    while other.rr_seen.load(Ordering::SeqCst) == before {
+                        if t1.elapsed() > Duration::from_millis(60) {
+                            ok_time = false;
+                            break;
+                        }
+                        std::thread::sleep(Duration::from_millis(1));
+                    }
+                }
+                rc.min(1)
+            }
+            2 if mode > 0 => {
+                let (tx, rx) = oneshot::channel();
+                let _ = me.rr.send(RCmd::Answer(tx));
+                ask(&rt, rx).min(1)
+            }
+            3 if mode > 0 => 0,
             1 => {
                 let before = (me.seen.load(Ordering::SeqCst), other.seen.load(Ordering::SeqCst));
                 let (tx, rx) = oneshot::channel();
@@ -249,7 +344,7 @@ fn run_once(t_ms: u64, with_ping: bool, transport: u64, ops: &[[u64; 2]]) -> (Ve
             _ => 0,
         };
         // ops on a closed connection: what the protocol task answers does not matter
-        let rc = if was_closed { (o[0] != 0) as u64 } else { rc };
+        let rc = if was_closed { (o[0] != 0 && !(mode > 0 && o[0] == 3)) as u64 } else { rc };
         let t_obs = t_op + Duration::from_millis(200);
         let now = Instant::now();
         if t_obs > now {
@@ -275,6 +370,52 @@ pub fn run(c: &[u64]) -> Vec<u64> {
         }
     }
     last
+}
+
+/// Request-response cases: requests answered at once, requests held by the responder across one
+/// or more timeouts (over the main name, over the responder's fallback name, over the requester's
+/// fallback name), then everything is let go and the timeout is waited out.
+pub fn gen_rr(rng: &mut Rng, transports: &[u64]) -> Vec<u64> {
+    let t = rng.pick(&[400u64, 400, 700]);
+    let ping = rng.chance(50) as u64;
+    let mode = rng.pick(&[1u64, 2, 2, 3]);
+    let tr = rng.pick(transports) + 3 * mode;
+    let mut ops: Vec<[u64; 2]> = Vec::new();
+    let mut pending = 0u64;
+    let rounds = rng.range(1, 3);
+    for _ in 0..rounds {
+        ops.push([1, 0]);
+        pending += 1;
+        if rng.chance(70) {
+            // held by the responder for longer than the timeout
+            for _ in 0..(t / 300 + rng.range(1, 3)) {
+                ops.push([0, 0]);
+            }
+        }
+        if rng.chance(30) {
+            ops.push([1, 0]);
+            pending += 1;
+        }
+        if rng.chance(75) {
+            ops.push([2, 0]);
+            pending -= 1;
+        }
+        if rng.chance(40) {
+            ops.push([0, 0]);
+        }
+    }
+    for _ in 0..pending {
+        ops.push([2, 0]);
+    }
+    for _ in 0..(t / 300 + 2) {
+        ops.push([0, 0]);
+    }
+    ops.truncate(38);
+    let mut c = vec![4, t, ping, tr, ops.len() as u64];
+    for o in ops {
+        c.extend(o);
+    }
+    c
 }
 
 pub fn gen(rng: &mut Rng, transports: &[u64]) -> Vec<u64> {
